@@ -445,6 +445,7 @@ func (e *Exec) execRange(s *ast.RangeStmt, label string, st *State, ctx *Ctx, k 
 			body.pc = append(body.pc, "(not (= "+v+" 0))")
 		}
 		keyT, valT = idx, v
+		e.setGhost(body, li, "elem", v) // the element of this iteration (the range variable may be reassigned in the body)
 		e.setGhost(body, li, "done'", "("+snoc+" "+done+" "+v+")")
 		e.setGhost(body, li, "rest'", rest2)
 	case rkInt:
